@@ -68,6 +68,8 @@ class ProgramRunner(object):
                 'mgr': t.manager_state()}
         if 'activity' in self.info.plugins:
             snap['activities'] = self.dump_activities()
+        if 'stamp' in self.info.plugins:
+            snap['tx_attrs'] = t.dump_tx_attrs()
         self.markers.append(snap)
         t.lines.append('qdump %d' % (len(self.markers) - 1))
         return snap
